@@ -327,7 +327,7 @@ def stepCore (st : St) (ws : List String) : St × String :=
     | some id =>
       match get st.s id with
       | none => (note st [id] [], i ++ " none")
-      | some h => (note st [id] [], i ++ " PeerHandle{peer_id:PeerId(" ++ toString h.id ++ ")}")
+      | some h => (note st [id] [], i ++ " PeerHandle{peer_id:PeerId(" ++ toString h.id ++ ")}|" ++ toString h.id)
     | none => (st, i ++ " bad-op")
   | ["dbgreg", i] => (st, i ++ " PeerRegistry{len:" ++ toString (len st.s) ++ "}")
   | ["ctx", i, "detached", m] =>
